@@ -258,6 +258,7 @@ def shards(tier, seed):
     npairs = len(pair_sources(tier, sp))
     items += [('pairs', tier, i) for i in range(npairs)]
     items += [('via', tier, seed), ('history', tier, seed)]
+    items += [('programs', tier, k) for k in range(8)]
     return items
 
 
@@ -300,10 +301,33 @@ def run_shard(item):
                 roundtrip(fills, label, 33, b'-- t\n-- a\nfunction f(x) return x*2 end\nprint(f(%d))' % i, res,
                           ('via-' + via, i), via=via)
         res.sample({'family': 'via', 'writers': ['file.to_file', 'file.to_file over existing', 'p8tool writep8']})
+    elif kind == 'programs':
+        for j, code in enumerate(packed_programs(item[1], item[2], 8)):
+            roundtrip({}, None, 33, code, res, ('programs', item[2], j))
+        res.sample({'family': 'programs', 'code_prefix': packed_programs(item[1], item[2], 8)[0][:80]})
     elif kind == 'history':
         path_history(res, '.p8')
         res.sample({'family': 'history', 'ops': 'write A; read; write B to the same path; read; write A again; read'})
     return res
+
+
+def packed_programs(tier, k, n, per_cart=60):
+    """Generated dialect programs (every statement kind x <= 1 deviation) as Lua sources, packed per cart."""
+    from lib import luagen as L
+    out, cur = [], []
+    for i, tree in enumerate(L.stat_programs(1)):
+        if i % n != k:
+            continue
+        p = L.render(tree)
+        if p is None or not p.toks:
+            continue
+        cur.append(L.assemble(p, {}))
+        if len(cur) >= per_cart:
+            out.append(b''.join(cur))
+            cur = []
+    if cur:
+        out.append(b''.join(cur))
+    return out
 
 
 def path_history(res, ext):
@@ -347,6 +371,10 @@ def replay(case):
     tag = case['tag']
     kind = tag[0]
     tier = 'thorough'
+    if kind == 'programs':
+        code = packed_programs(tier, tag[1], 8)[tag[2]]
+        roundtrip({}, None, 33, code, res, tuple(tag))
+        return [(s, v[0]) for s, v in res.violations.items()]
     if kind == 'history':
         path_history(res, tag[1])
         return [(s, v[0]) for s, v in res.violations.items()]
